@@ -18,6 +18,15 @@ pub enum MatSpec {
 }
 
 impl MatSpec {
+    /// (largest integer bit length, largest polynomial degree) over all values of the specification
+    pub fn size(&self) -> (u32, usize) {
+        use crate::props::c14::val_size;
+        let f = |a: (u32, usize), b: (u32, usize)| (a.0.max(b.0), a.1.max(b.1));
+        match self {
+            MatSpec::Planted { diag, ops, .. } => diag.iter().map(val_size).chain(ops.iter().map(|o| val_size(&o.3))).fold((0, 0), f),
+            MatSpec::Random { entries, .. } => entries.iter().map(val_size).fold((0, 0), f),
+        }
+    }
     pub fn shape(&self, maxdim: usize) -> (usize, usize) {
         match self { MatSpec::Planted { m, n, .. } | MatSpec::Random { m, n, .. } => (*m as usize % (maxdim + 1), *n as usize % (maxdim + 1)) }
     }
